@@ -153,5 +153,17 @@ def msg_of_event(ev, charset='latin1'):
 def midifile_of(fmt, division, tracks, charset='latin1'):
     mid = mido.MidiFile(type=fmt, ticks_per_beat=division, charset=charset)
     for evs in tracks:
-        mid.tracks.append(mido.MidiTrack(msg_of_event(e, charset) for e in evs))
+        mid.tracks.append(mido.MidiTrack(msg_of_event(e, 'latin1' if charset not in ('latin1',) and any(
+            e[0] == 'meta' for e in evs) and not _decodable(evs, charset) else charset) for e in evs))
     return mid
+
+
+def _decodable(evs, charset):
+    from .ref import meta as rmeta
+    try:
+        for e in evs:
+            if e[0] == 'meta' and e[2] in rmeta.BY_BYTE and rmeta.BY_BYTE[e[2]] in rmeta.TEXT_TYPES:
+                bytes(e[3]).decode(charset)
+        return True
+    except UnicodeError:
+        return False
